@@ -13,6 +13,7 @@ CONSTANTS
   MaxCycles = 2
   RecheckUnderLock = TRUE
   GuardedConn = TRUE
+  PerCycleWG = TRUE
   Script <- MCScriptC
 VIEW view
 INVARIANTS MutualExclusion FifoPrefix AtMostOnce ExactlyOnce NoPanic AfterShutdown NoLateStart Accounted
